@@ -118,6 +118,7 @@ impl RegName16 {
 /// Z80 registers
 #[rustfmt::skip]
 #[derive(Default)]
+#[cfg_attr(rustzx_verif, derive(Clone))]
 pub struct Regs {
     pc: u16,
     sp: u16,
@@ -138,6 +139,19 @@ pub struct Regs {
     b_alt: u8, c_alt: u8,
     d_alt: u8, e_alt: u8,
     h_alt: u8, l_alt: u8,
+}
+
+#[cfg(rustzx_verif)]
+impl Regs {
+    /// Verification hook: (q, last_q) latches
+    pub fn verif_q(&self) -> (u8, u8) {
+        (self.q, self.last_q)
+    }
+
+    /// Verification hook: force the q latch
+    pub fn verif_set_q(&mut self, q: u8) {
+        self.q = q;
+    }
 }
 
 impl Regs {
